@@ -1,9 +1,31 @@
 import CprocVerif.Gen.ErrorSites
 import CprocVerif.Gen.C10Catalogue
 import CprocVerif.Lemmas.C10Sites
+import CprocVerif.Lemmas.C10Types
+import CprocVerif.Lemmas.C10Accept
+import CprocVerif.Lemmas.Layout
+import CprocVerif.Props.C05
+import CprocVerif.Props.C07
+import CprocVerif.Props.C09
+import CprocVerif.Props.C13
+import CprocVerif.Props.C14
+import CprocVerif.Props.C15
 
 /-!
 # C10 — constraint violations and unsupported features are diagnosed, never accepted
+
+Two kinds of theorem.
+
+1. **Catalogue coverage**, over tables regenerated from `/repo` on every run: every diagnostic site
+   of the current sources has an entry in `catalogue/c10.json`, whose violating templates
+   `checks/c10.py` compiles at every position of generated programs.
+2. **Acceptance soundness** of the modelled front-end components, for ALL inputs: *if the model of
+   the component accepts, the C11 constraint holds*.  The constraints are stated in
+   `Spec/Constraints.lean` (6.5.x), `Spec/Link.lean` (6.2.2/6.7/6.9), `Spec/Lex.lean` (6.4.4.4/6.4.5)
+   and below, independently of the models' code; the models are those of the other properties
+   (each tied to `/repo` by its own correspondence run).  Where the full statement is false on
+   the current tree it is kept as `def …_full`, refuted by `…_counterexample`, and the provable
+   restriction is `…_partial`.
 
 ## 1. Catalogue coverage (regenerated from `/repo` on every run)
 -/
@@ -50,5 +72,405 @@ theorem class_counts :
 /-- at least nine in ten diagnostic sites are exercised by a violating template -/
 theorem template_majority : 9 * ErrorSites.codes.length ≤ 10 * countClass 0 C10Catalogue.codes := by
   decide +kernel
+
+/-! ## 2. Acceptance soundness: expressions (`expr.c`, model `Model/Types.lean`) -/
+
+section Expressions
+open CprocVerif.Types CprocVerif.Spec CprocVerif.Spec.Constraints CprocVerif.Types.Lemmas CprocVerif.C10Types
+
+/-- **Binary operators.**  Whenever `mkbinaryexpr` accepts `l op r` (any of the 18 operators, any
+operand types: arithmetic incl. enums and bit-fields, pointers, `void`, structs, functions), the
+Constraints paragraph of the operator's clause holds: 6.5.5p2, 6.5.6p2-3, 6.5.7p2, 6.5.8p2, 6.5.9p2,
+6.5.10-12p2, 6.5.13-14p2.  (Holds at full strength since fixes 6e57e5d, 2e6f4ec, 802a13f.) -/
+theorem binop_accept_sound (sc : Bool) (op : BinOp) (l r : Operand) (t : Ty)
+    (ol : OperandOk l) (or' : OperandOk r) (h : binopType sc op l r = some t) :
+    Constraints.binop op l r = true :=
+  binop_sound sc op l r t ol or' h
+
+example : OperandOk { ty := .ptr {} Ty.int } ∧ OperandOk { ty := .arith (.enum 3 .uint), width := some 5 } :=
+  ⟨trivial, rfl, by decide⟩
+example : binopType true .sub { ty := .ptr {} Ty.int } { ty := .ptr { c := true } Ty.int } = some Ty.long := by decide
+-- the witnesses of the repaired defects are rejected by the model:
+example : binopType true .band { ty := .arith (.basic .double) } { ty := Ty.int } = none := by decide
+example : binopType true .eql { ty := .ptr {} .void, nullconst := true } { ty := .arith (.basic .double) } = none := by
+  decide
+example : binopType true .sub { ty := .ptr {} (.arr {} (.const 3) {} Ty.int) }
+    { ty := .ptr {} (.arr {} .incomplete {} Ty.int) } = none := by decide
+
+/-- …and conversely on operands that satisfy the constraint and are typed by C11, nothing is
+rejected (`C05.binop_type_correct`): acceptance is exactly the constraint. -/
+theorem binop_accepts_valid (sc : Bool) (op : BinOp) (l r : Operand) (t : Ty)
+    (ol : OperandOk l) (or' : OperandOk r) (h : binopOk sc op l r t = true) :
+    binopType sc op l r = some t ∧ Constraints.binop op l r = true := by
+  have h1 := C05.binop_type_correct sc op l r t ol or' h
+  exact ⟨h1, binop_sound sc op l r t ol or' h1⟩
+
+/-- **Unary operators**, full strength: whenever `unaryexpr`/`mkunaryexpr`/`mkincdecexpr` accept,
+6.5.3.2p1-2, 6.5.3.3p1, 6.5.3.4p1, 6.5.2.4p1/6.5.3.1p1 hold. -/
+def unary_accept_sound_full : Prop :=
+  ∀ (sc : Bool) (op : UnOp) (e o : Operand), OperandOk e →
+    ((op = .preinc ∨ op = .predec ∨ op = .postinc ∨ op = .postdec) → e.ty.isArith = true ∨ e.ty.isPtr = true) →
+    unaryOp sc op e = some o → Constraints.unop op e = true
+
+/-- `struct S g(void); … &g()`: the address of a structure *rvalue* is accepted (`mkunaryexpr`
+exempts every struct/union operand from the lvalue test because member access on rvalues is built
+with it).  Reproduced on the binary: `struct S {int a;}; struct S g(void); void f(void){ &g(); }`
+exits 0 (gcc, clang: "lvalue required"). -/
+theorem unary_accept_sound_counterexample : ¬ unary_accept_sound_full := by
+  intro h
+  have := h true .addr { ty := .struct 0 } (rvalue (.ptr {} (.struct 0))) trivial (by simp) rfl
+  exact absurd this (by decide)
+
+/-- Every unary operator except `&` applied to a structure/union rvalue.  For `++`/`--` the model
+leaves "real or pointer type" to the code generator (`qbe.c:funcexpr` "not a scalar"), hence the
+hypothesis `har`. -/
+theorem unary_accept_sound_partial (sc : Bool) (op : UnOp) (e o : Operand) (ok : OperandOk e)
+    (hsu : op = .addr → (designatorType e).isStructUnion = false)
+    (har : (op = .preinc ∨ op = .predec ∨ op = .postinc ∨ op = .postdec) →
+      e.ty.isArith = true ∨ e.ty.isPtr = true)
+    (h : unaryOp sc op e = some o) : Constraints.unop op e = true :=
+  unop_sound sc op e o ok hsu har h
+
+example : (unaryOp true .postinc { ty := .ptr {} Ty.int, lvalue := true }).map (·.ty) = some (.ptr {} Ty.int) := by decide
+example : unaryOp true .postinc { ty := .ptr {} .void, lvalue := true } = none := by decide   -- fix 93895c0
+example : unaryOp true .addr { ty := Ty.int, lvalue := true, width := some 3 } = none := by decide
+example : unaryOp true .sizeofE { ty := .ptr {} Ty.int, decayedFrom := some (.arr {} .incomplete {} Ty.int, {}) } = none := by
+  decide
+
+/-- **Casts**, 6.5.4p2: void, or scalar to scalar. -/
+theorem cast_accept_sound (t : Ty) (e o : Operand) (h : castType t e = some o) : castScalar t e = true :=
+  cast_sound t e o h
+
+/-- 6.5.4p4 (no conversion between pointer and floating types) at full strength -/
+def cast_ptr_float_full : Prop := ∀ (t : Ty) (e o : Operand), castType t e = some o → castNoPtrFloat t e = true
+
+/-- `(double)p` is accepted (and compiled as `ultof`): cproc checks this constraint nowhere. -/
+theorem cast_ptr_float_counterexample : ¬ cast_ptr_float_full := by
+  intro h
+  have := h (.arith (.basic .double)) { ty := .ptr {} Ty.int } _ rfl
+  exact absurd this (by decide)
+
+example : castType (.struct 1) { ty := Ty.int } = none ∧ castType Ty.int { ty := .struct 1 } = none := by decide
+
+/-- `sizeof (type-name)`, `_Alignof (type-name)`: 6.5.3.4p1. -/
+theorem sizeof_typename_accept_sound (t r : Ty) (h : Types.sizeofType t = some r) : sizeofTypeName t = true :=
+  sizeofType_sound t r h
+
+/-- **Assignment** `l = r` and `l op= r`: the left operand is an lvalue (6.5.16p2) and, for the
+compound forms, the operands satisfy the constraint of the binary operator (6.5.16.2p1-2). -/
+theorem assign_accept_sound (l r o : Operand) (h : assignType l r = some o) : assignLvalue l = true :=
+  assign_sound l r o h
+
+theorem compound_assign_accept_sound (sc : Bool) (op : BinOp) (l r o : Operand) (ol : OperandOk l)
+    (or' : OperandOk r) (h : compoundAssignType sc op l r = some o) :
+    assignLvalue l = true ∧ Constraints.binop op { l with decayedFrom := none } r = true :=
+  compound_assign_sound sc op l r o ol or' h
+
+example : compoundAssignType true .mod { ty := .arith (.basic .double), lvalue := true } { ty := Ty.int } = none := by
+  decide
+
+/-- simple assignment / initialisation / argument passing / `return` to a pointer (6.5.16.1p1) -/
+def ptr_assign_accept_sound_full : Prop :=
+  ∀ (t : Ty) (e : Operand), ptrAssignOk t e = true → assignToPointer t e = true
+
+/-- `void g(void); void *p = g;` — a pointer to *function* next to a pointer to void is accepted
+(`exprassign` asks for "compatible or void"); gcc/clang reject it only with -pedantic-errors. -/
+theorem ptr_assign_accept_sound_counterexample : ¬ ptr_assign_accept_sound_full := by
+  intro h
+  have := h (.ptr {} .void) { ty := .ptr {} (.func {} .void [] false) } (by decide)
+  exact absurd this (by decide)
+
+theorem ptr_assign_accept_sound_partial (t : Ty) (e : Operand) (hx : voidVsFuncPtr t e.ty = false)
+    (h : ptrAssignOk t e = true) : assignToPointer t e = true :=
+  ptrAssign_sound t e hx h
+
+example : voidVsFuncPtr (.ptr {} Ty.int) (.ptr { c := true } Ty.int) = false ∧
+    ptrAssignOk (.ptr {} Ty.int) { ty := .ptr { c := true } Ty.int } = false := by decide
+
+/-- **Function calls**, 6.5.2.2p1-2 -/
+def call_accept_sound_full : Prop :=
+  ∀ (f o : Operand) (n : Nat), callType f n = some o → Constraints.call f n = true
+
+/-- `int g(int, int, ...); g(1)`: "not enough arguments" is only diagnosed for non-variadic callees.
+Reproduced on the binary (gcc, clang: "too few arguments"). -/
+theorem call_accept_sound_counterexample : ¬ call_accept_sound_full := by
+  intro h
+  have := h { ty := .ptr {} (.func {} Ty.int [Ty.int, Ty.int] true) } _ 1 rfl
+  exact absurd this (by decide)
+
+theorem call_accept_sound_partial (f o : Operand) (n : Nat) (hx : variadicTooFew f n = false)
+    (h : callType f n = some o) : Constraints.call f n = true :=
+  call_sound f o n hx h
+
+example : callType { ty := .ptr {} (.func {} Ty.int [Ty.int] false) } 2 = none ∧
+    callType { ty := Ty.int } 0 = none := by decide
+
+/-- **Member access**, 6.5.2.3p1-2 -/
+theorem member_accept_sound (arrow : Bool) (e o : Operand) (mty : Ty) (mq : Qual) (bits : Option Nat)
+    (h : memberType arrow e mty mq bits = some o) : Constraints.member arrow e = true :=
+  member_sound arrow e o mty mq bits h
+
+/-- **Array subscripting**, 6.5.2.1p1 (`wf`: the sub-expressions have well-formed arithmetic types) -/
+theorem subscript_accept_sound (tg : Target) (a i : Expr) (o : Operand)
+    (wf : ∀ e x, typeOf tg e = some x → OperandOk x) (h : typeOf tg (.index a i) = some o) :
+    ∃ x y, typeOf tg a = some x ∧ typeOf tg i = some y ∧ subscript x y = true :=
+  index_sound tg a i o wf h
+
+/-- **Conditional operator**, 6.5.15p2-3 (C23 adds: both operands `nullptr_t`) -/
+def cond_accept_sound_full : Prop :=
+  ∀ (sc : Bool) (c l r : Operand) (t : Ty), converted l.ty = true → condType sc c l r = some t →
+    condFirst c = true ∧ (condArms l r = true ∨ (l.ty = .nullptr ∧ r.ty = .nullptr))
+
+/-- `c ? (void *)p : fn` with a pointer to function: accepted (gcc/clang: pedantic error). -/
+theorem cond_accept_sound_counterexample : ¬ cond_accept_sound_full := by
+  intro h
+  have := (h true { ty := Ty.int } { ty := .ptr {} .void } { ty := .ptr {} (.func {} .void [] false) } _
+    (by decide) rfl).2
+  exact absurd this (by decide)
+
+theorem cond_accept_sound_partial (sc : Bool) (c l r : Operand) (t : Ty) (hl : converted l.ty = true)
+    (hx : voidVsFuncPtr l.ty r.ty = false) (h : condType sc c l r = some t) :
+    condFirst c = true ∧ (condArms l r = true ∨ (l.ty = .nullptr ∧ r.ty = .nullptr)) :=
+  cond_sound sc c l r t hl hx h
+
+example : condType true { ty := .struct 0 } { ty := Ty.int } { ty := Ty.int } = none := by decide   -- fix 8620260
+example : condType true { ty := Ty.int } { ty := .ptr {} Ty.int } { ty := .ptr {} (.arith (.basic .double)) } = none := by
+  decide
+
+/-- **Generic selection**, 6.5.1.1p2 (as far as cproc checks it: the controlling type matches at
+most one association, exactly one without `default`) -/
+theorem generic_accept_sound (want : Ty) (assocs : List (Ty × Qual)) (d : Bool) (r : Option Nat)
+    (h : genericSelect want assocs d = some r) : Constraints.generic want assocs d :=
+  generic_sound want assocs d r h
+
+example : genericSelect Ty.int [(Ty.int, {}), (Ty.int, {})] true = none ∧
+    genericSelect Ty.int [(Ty.long, {})] false = none := by decide
+
+/-- **Integer constants**, 6.4.4p2: "the value of a constant shall be in the range of representable
+values for its type": the type `inttype` picks can represent the value. -/
+theorem intconst_accept_sound (sc : Bool) (v : Nat) (hv : v < 2 ^ 64) (decimal : Bool) (s : String) (b : Basic)
+    (h : inttype sc v decimal s = .ty b) : inRange (rangeB sc b) (v : Int) := by
+  have key : ∀ fuel i step, scanLimits sc v step fuel i = .ty b →
+      typehasint sc (.basic b) v false = true ∧ b.isInt = true ∧ b ≠ .bool := by
+    intro fuel
+    induction fuel with
+    | zero => intro i step h; simp [scanLimits] at h
+    | succ n ih =>
+      intro i step h
+      simp only [scanLimits] at h
+      split at h
+      · cases h
+      · rename_i b' e1 e2 hb'
+        split at h
+        · rename_i hh
+          cases h
+          have hm : (b, e1, e2) ∈ limits := List.mem_of_getElem? hb'
+          refine ⟨hh, ?_⟩
+          simp only [limits, List.mem_cons, Prod.mk.injEq, List.mem_nil_iff, or_false] at hm
+          rcases hm with ⟨rfl, _⟩ | ⟨rfl, _⟩ | ⟨rfl, _⟩ | ⟨rfl, _⟩ | ⟨rfl, _⟩ | ⟨rfl, _⟩ <;> exact ⟨rfl, by decide⟩
+        · exact ih _ _ h
+  unfold inttype at h
+  split at h
+  · cases h
+  · obtain ⟨h1, h2, h3⟩ := key _ _ _ h
+    have := hasint_basic sc b h2 h3 v hv false
+    rw [h1] at this
+    have hd : decode v false = (v : Int) := by simp [decode]
+    rw [hd] at this
+    exact of_decide_eq_true this.symm
+
+example : inttype true (2 ^ 63) true "" = .noType ∧ inttype true 5 true "q" = .badSuffix := by decide
+
+/-- **Enumerator values**, 6.7.2.2p2 / C23: representable in the (underlying) type -/
+def enum_value_accept_sound_full : Prop := C05.hasint_full
+
+/-- `enum E : _Bool { A = 2 };` accepted (known finding C05 `enum-bool-range`) -/
+theorem enum_value_accept_sound_counterexample : ¬ enum_value_accept_sound_full := C05.hasint_counterexample
+
+theorem enum_value_accept_sound_partial (sc : Bool) (t : ATy) (hwf : t.wf = true) (hi : t.isInt = true)
+    (hb : intTypeOf t ≠ .bool) (v : Nat) (hv : v < 2 ^ 64) (sign : Bool)
+    (h : typehasint sc t v sign = true) : inRange (range sc t) (decode v sign) := by
+  have := C05.hasint_partial sc t hwf hi hb v hv sign
+  rw [h] at this
+  exact of_decide_eq_true this.symm
+
+end Expressions
+
+/-! ## 3. Acceptance soundness: declarations, statements, literals, initialisers -/
+
+section Linkage
+open CprocVerif.Linkage CprocVerif.Link
+
+/-- **Linkage** (6.2.2, 6.7p3, 6.7.1, 6.7.9p5, 6.9): an accepted history of declarations of one
+identifier violates no constraint — at full strength -/
+def linkage_accept_sound_full : Prop :=
+  ∀ (h : List Form) (s : _), run h = .ok s → ¬ Link.violates h
+
+/-- `void u(void){ extern int x; } _Thread_local int x;` (C09 `thread-local-mismatch-unseen-block-extern`) -/
+theorem linkage_accept_sound_counterexample : ¬ linkage_accept_sound_full := by
+  intro hfull
+  apply C09.rejects_violations_counterexample
+  intro h hv
+  cases hr : run h with
+  | error e => exact ⟨e, rfl⟩
+  | ok s => exact absurd hv (hfull h s hr)
+
+/-- every accepted history violates at most that one clause -/
+theorem linkage_accept_sound_partial (h : List Form) (s : _) (hr : run h = .ok s) (c : Clause)
+    (hc : classify h = .violates c) : c = .c6_7_1p3_threadMismatchUnseenBlockExtern := by
+  apply Classical.byContradiction
+  intro hne
+  obtain ⟨e, he⟩ := C09.rejects_violations_partial h c hc hne
+  rw [hr] at he
+  cases he
+
+example : ∃ s, run [C09.On0, C09.On0] = .ok s := ⟨_, rfl⟩
+example : classify [C09.On0, C09.Ot0] = .violates .c6_7_1p3_threadMismatchSameScope ∧
+    (∃ e, run [C09.On0, C09.Ot0] = .error e) := ⟨by decide, _, rfl⟩
+
+end Linkage
+
+section Switch
+open CprocVerif.Tree CprocVerif.Tree.T CprocVerif.Accept
+
+/-- **Case labels**, 6.8.4.2p3: "no two of the case constant expressions in the same switch
+statement shall have the same value after conversion" — for a promoted controlling type of 4 bytes
+(conversion = the low 32 bits) and of 8 bytes, any number of labels, either signedness.
+`switchCases` = `qbe.c:switchcase` run on the labels in order. -/
+theorem case_labels_accept_sound (s : Bool) (cs : List Nat) (t : T) :
+    (switchCases 4 s nil cs = some t → (cs.map (· % 2 ^ 32)).Nodup) ∧
+    (switchCases 8 s nil cs = some t → (cs.map (· % 2 ^ 64)).Nodup) := by
+  constructor <;> intro h
+  · have := (switchCases_iff 4 s cs nil trivial).1 (by rw [h]; rfl)
+    exact (nodup_map_congr _ _ (fun a b => caseKey_four_eq_iff s a b) cs).1 this.1
+  · have := (switchCases_iff 8 s cs nil trivial).1 (by rw [h]; rfl)
+    exact (nodup_map_congr _ _ (fun a b => by rw [caseKey_eight, caseKey_eight]) cs).1 this.1
+
+/-- …and duplicate-free label lists are accepted (the diagnostic is exact). -/
+theorem case_labels_accepts_valid (s : Bool) (cs : List Nat) (h : (cs.map (· % 2 ^ 32)).Nodup) :
+    (switchCases 4 s nil cs).isSome = true :=
+  (switchCases_iff 4 s cs nil trivial).2
+    ⟨(nodup_map_congr _ _ (fun a b => caseKey_four_eq_iff s a b) cs).2 h, fun _ _ hm => by simp [toList] at hm⟩
+
+example : switchCases 4 true nil [0, 0x100000000] = none := by decide      -- fix 4f4b330
+example : (switchCases 4 true nil [3, 1, 2 ^ 32 - 1, 7]).isSome = true := by decide
+
+end Switch
+
+section Members
+open CprocVerif.Layout
+
+private theorem wfDecls_each {isUnion pack : Bool} : ∀ {ds : List Decl}, WfDecls isUnion pack ds →
+    ∀ d ∈ ds, (d.ty.incomplete = true → d.ty.isArray = true) ∧
+      (isUnion = false → d.ty.flexible = false) ∧
+      (match d.width with
+       | none => d.align = 0 ∨ (Pow2 d.align ∧ d.ty.align ≤ d.align)
+       | some w => d.ty.isInt = true ∧ d.align = 0 ∧ pack = false ∧ (w = 0 → d.named = false) ∧
+           w ≤ 8 * d.ty.size)
+  | [], _, d, hd => by cases hd
+  | d0 :: ds, hw, d, hd => by
+    obtain ⟨h1, _, h3⟩ := hw
+    rcases List.mem_cons.mp hd with rfl | hd
+    · obtain ⟨_, a, b, c⟩ := h1
+      refine ⟨a, b, ?_⟩
+      cases hwd : d.width with
+      | none => simpa [hwd] using c
+      | some w =>
+        simp only [hwd] at c
+        exact ⟨c.1, c.2.1, c.2.2.1, c.2.2.2.1, c.2.2.2.2.1⟩
+    · exact wfDecls_each h3 d hd
+
+private theorem wfDecls_flexible_last {isUnion pack : Bool} (hu : isUnion = false) :
+    ∀ {ds : List Decl}, WfDecls isUnion pack ds →
+    ∀ pre d post, ds = pre ++ d :: post → d.ty.incomplete = true → post = []
+  | [], _, pre, d, post, e, _ => by cases pre <;> cases e
+  | d0 :: ds, hw, pre, d, post, e, hinc => by
+    obtain ⟨_, h2, h3⟩ := hw
+    cases pre with
+    | nil =>
+      simp only [List.nil_append, List.cons.injEq] at e
+      obtain ⟨rfl, rfl⟩ := e
+      exact h2 hu hinc
+    | cons p pre =>
+      simp only [List.cons_append, List.cons.injEq] at e
+      exact wfDecls_flexible_last hu h3 pre d post e.2 hinc
+
+/-- **Structure and union members**, 6.7.2.1p3-5, 6.7.5p2-4: whenever `addmember`/`tagspec` accept a
+member list (of parser-produced type descriptors), for every member: no incomplete type except an
+incomplete array; in a struct no member containing a flexible array member and nothing after a
+flexible array member; an `_Alignas` is a power of two not less strict than the type's alignment;
+a bit-field has integer type, no `_Alignas`, is not in a packed struct, a zero width has no
+declarator, the width does not exceed the width of the type; and there is at least one member. -/
+theorem members_accept_sound {isUnion pack : Bool} {ds : List Decl} {L : Layout.Layout} (ht : TypesWf ds)
+    (h : Layout.layout isUnion pack ds = .ok L) :
+    (∀ d ∈ ds, (d.ty.incomplete = true → d.ty.isArray = true) ∧
+      (isUnion = false → d.ty.flexible = false) ∧
+      (match d.width with
+       | none => d.align = 0 ∨ (Pow2 d.align ∧ d.ty.align ≤ d.align)
+       | some w => d.ty.isInt = true ∧ d.align = 0 ∧ pack = false ∧ (w = 0 → d.named = false) ∧
+           w ≤ 8 * d.ty.size)) ∧
+    (isUnion = false → ∀ pre d post, ds = pre ++ d :: post → d.ty.incomplete = true → post = []) ∧
+    ds.any Decl.hasMember = true := by
+  obtain ⟨hw, hm, _⟩ := layout_ok_wf ht h
+  exact ⟨wfDecls_each hw, fun hu => wfDecls_flexible_last hu hw, hm⟩
+
+end Members
+
+section Literals
+open CprocVerif.Scan CprocVerif.Spec.Lex
+
+/-- **Character constants and string literals**, 6.4.4.4 / 6.4.5 syntax: when the scanner delivers a
+token for text that starts with a quote, the lexeme is a complete literal — closed by the same
+quote before any new-line or end of file, every escape sequence one of 6.4.4.4p1.  (Unterminated
+literals, new-lines, NUL bytes and invalid escapes are the `error` branches of `scan.c`.) -/
+theorem literal_accept_sound (str : Bool) (t : List UInt8) (tok : Tok) (rest : List UInt8)
+    (h : first (quoteOf str :: t) = .ok (tok, rest)) :
+    ∃ w, tok.lit = some w ∧ IsQuoted (quoteOf str) w ∧ quoteOf str :: t = w ++ rest := by
+  rcases C13.quote_starts_literal str t with ⟨e, he, _⟩ | ⟨w, rest', hr, hq, _, hcat⟩
+  · rw [h] at he; cases he
+  · rw [h] at hr
+    cases hr
+    exact ⟨w, rfl, hq, hcat⟩
+
+example : first b!"\"a\\q\"" = .error .escape ∧ first b!"'a" = .error .eofChar ∧
+    first b!"\"a\nb\"" = .error .nlStr := by decide +kernel
+
+end Literals
+
+section CharValues
+open CprocVerif.CharLit CprocVerif.Unicode
+
+/-- **UTF-8 in literals**: when `decodechar` accepts a character position that does not start with a
+backslash, some prefix of at most 4 bytes is a well-formed UTF-8 sequence (no stray continuation
+byte, overlong form, surrogate or value above U+10FFFF is ever accepted). -/
+theorem utf8_accept_sound {bs : List Nat} (hne : bs ≠ []) (hb : ∀ b ∈ bs, b < 256) (h5c : bs.headD 0 ≠ 0x5c)
+    (r : _) (h : decodechar bs = .ok r) : ∃ l, l ≤ 4 ∧ WellFormed8 (bs.take l) := by
+  apply Classical.byContradiction
+  intro hn
+  have := C14.decodechar_rejects_invalid hne hb h5c (fun l hl hw => hn ⟨l, hl, hw⟩)
+  rw [h] at this
+  cases this
+
+end CharValues
+
+section Initialisers
+open CprocVerif.Init
+
+/-- **Initialisers**, 6.7.9p2: "No initializer shall attempt to provide a value for an object not
+contained within the entity being initialized" — full strength -/
+def init_accept_sound_full : Prop := C07.offsets_inside_full
+
+/-- `int a[0] = {1};` / a flexible array member (C19 `flexible-init-assert`) -/
+theorem init_accept_sound_counterexample : ¬ init_accept_sound_full := C07.offsets_inside_counterexample
+
+/-- for every type of known, non-zero-length shape and EVERY initialiser tree `parseinit` accepts,
+each initialised range lies inside the object -/
+theorem init_accept_sound_partial {t : Ty} {i : Ini} {st : St} (ht : TyOk t) (e : parseinit t false i = .ok st) :
+    ∀ ev ∈ st.log, match ev with
+      | .add x => x.start ≤ x.stop ∧ x.stop ≤ t.size
+      | .clear a b => a ≤ b ∧ b ≤ t.size :=
+  C07.offsets_inside ht e
+
+end Initialisers
 
 end CprocVerif.C10
